@@ -31,6 +31,8 @@ pub(crate) mod custom;
 #[cfg(not(wasm_browser))]
 mod ip;
 mod relay;
+#[cfg(all(feature = "verif-hooks", not(wasm_browser)))]
+pub(crate) mod verif;
 
 use custom::{CustomEndpoint, CustomSender, CustomTransport};
 
